@@ -334,6 +334,8 @@ pub struct SimGoal<R: Raw> {
     pub turn: Option<(usize, Comp)>,
     /// metric weight of every layout component
     pub weights: Vec<f64>,
+    /// states the `Cycle` sampler hands out in turn
+    pub cycle: Vec<Vec<f64>>,
     /// Some: the predicate measures with the harness's own metric (target as a flat state)
     pub hm: Option<(crate::spaces::HMetric, Vec<f64>)>,
 }
@@ -441,6 +443,13 @@ impl<R: Raw> GoalSampleableRegion<R::StateType> for SimGoal<R> {
                 let mut x = Xo::new(crate::prng::mix(self.seed, "goal", draw_no));
                 let s = self.draw(&mut x);
                 self.fit_comp(s, &mut x)
+            }
+            GoalSampler::Cycle => {
+                if self.cycle.is_empty() {
+                    self.target.clone()
+                } else {
+                    R::dec(&self.lay, &self.cycle[((draw_no - 1) as usize) % self.cycle.len()])
+                }
             }
             GoalSampler::Translate => {
                 let mut x = Xo::new(crate::prng::mix(self.seed, "goal", draw_no));
@@ -913,6 +922,7 @@ fn run_typed<R: Raw>(scn: &Scenario, opts: &RunOpts) -> Outcome {
                     k.map(|k| (crate::spaces::comp_offset(&lay, k), lay[k]))
                 },
                 weights: crate::spaces::comp_weights(&scn.space),
+                cycle: p.goal.cycle.clone(),
                 hm: if p.goal.harness_metric { Some((crate::spaces::HMetric::new(&scn.space), p.goal.target.clone())) } else { None },
               });
               goal_cache.borrow_mut().push((pi, g.clone()));
